@@ -1,6 +1,7 @@
 use core::alloc::Layout;
 use core::mem::MaybeUninit;
 use crate::mem::{Mem, MemBuilder};
+use crate::mem::{AlignedBytes, MAX_STACK_ALIGN};
 
 /// Fixed `SIZE` capacity on-stack memory.
 ///
@@ -17,6 +18,7 @@ impl<const SIZE: usize> MemBuilder for Stack<SIZE>{
 
     #[inline]
     fn build(&mut self, element_layout: Layout) -> StackMem<SIZE> {
+        assert!(element_layout.align() <= MAX_STACK_ALIGN, "Element alignment is too big for on-stack storage!");
         let size =
             if element_layout.size() == 0{
                 usize::MAX
@@ -25,7 +27,7 @@ impl<const SIZE: usize> MemBuilder for Stack<SIZE>{
             };
 
         StackMem{
-            mem: MaybeUninit::uninit(),
+            mem: AlignedBytes(MaybeUninit::uninit()),
             element_layout,
             size
         }
@@ -33,7 +35,7 @@ impl<const SIZE: usize> MemBuilder for Stack<SIZE>{
 }
 
 pub struct StackMem<const SIZE: usize>{
-    mem: MaybeUninit<[u8; SIZE]>,
+    mem: AlignedBytes<SIZE>,
     element_layout: Layout,
     size: usize
 }
@@ -41,12 +43,12 @@ pub struct StackMem<const SIZE: usize>{
 impl<const SIZE: usize> Mem for StackMem<SIZE>{
     #[inline]
     fn as_ptr(&self) -> *const u8 {
-        self.mem.as_ptr() as *const u8
+        self.mem.0.as_ptr() as *const u8
     }
 
     #[inline]
     fn as_mut_ptr(&mut self) -> *mut u8 {
-        self.mem.as_mut_ptr() as *mut u8
+        self.mem.0.as_mut_ptr() as *mut u8
     }
 
     #[inline]
